@@ -6,11 +6,14 @@
 package server
 
 import (
+	"net/http"
+
 	"github.com/resgateio/resgate/server/codec"
 	"github.com/resgateio/resgate/server/rescache"
 	"github.com/resgateio/resgate/server/reserr"
 )
 
+var _ http.Header
 var _ = codec.IsValidRID
 var _ = rescache.NewThrottle
 var _ = reserr.ErrAccessDenied
@@ -242,6 +245,51 @@ var _ = reserr.ErrAccessDenied
 //@   requires w != nil
 
 //@ immutable Service.enc
+
+// --- HTTP entry (C14, C17) ---
+
+// PathToRID / PathToRIDAction never panic on any path, query and prefix.
+//@ func PathToRID
+//@   assigns elemsof([]string)
+//@   safety[C15]
+//@   loop 1 invariant 0 - 1 <= i && i < len(parts) && len(parts) >= 1
+//@ func PathToRIDAction
+//@   assigns elemsof([]string)
+//@   safety[C15]
+//@   loop 1 invariant 0 - 1 <= i && i < len(parts) && len(parts) >= 2
+//@ func RIDToPath
+//@   assigns nothing
+//@   safety[C15]
+
+// CORS: with an origin allow-list, a request bearing an Origin header other than "null" that
+// matches no listed origin (ASCII case ignored) is refused with system.forbidden; and only such
+// a request is refused.
+//@ func (*Service).setCommonHeaders
+//@   requires s != nil && w != nil && r != nil
+//@   assumes len(s.cfg.allowOrigin) > 0 && w.Header() != r.Header
+//@   assigns elemsof(http.Header)
+//@   ensures[C17] (result != nil) == (old(s.cfg.allowOrigin[0]) != "*" && old(len(r.Header["Origin"])) > 0 && old(r.Header["Origin"][0]) != "null" &&
+//@       !(exists j int :: 0 <= j && j < len(old(s.cfg.allowOrigin)) && predOriginEq(old(s.cfg.allowOrigin)[j], old(r.Header["Origin"][0]))))
+//@   ensures[C17] result != nil ==> result == reserr.ErrForbiddenOrigin
+//@   safety[C15]
+
+// apiHandler: a refused origin is answered with 403 before any service request is made for it
+// (a pre-flight OPTIONS request is answered without service requests, too); GET/HEAD take the
+// same path; only valid resource ids reach a connection.
+//@ func (*Service).apiHandler
+//@   requires s != nil && w != nil && r != nil && r.URL != nil && s.enc != nil
+//@   assumes len(s.cfg.allowOrigin) > 0 && s.conns != nil
+//@   assert[C17] httpError#1: arg1 == reserr.ErrForbiddenOrigin && r.Method != "OPTIONS" && callcount("temporaryConn") == old(callcount("temporaryConn")) && callcount("handleCall") == old(callcount("handleCall"))
+//@   assert[C14,C17] s.temporaryConn#1: codec.predValidRID(rid, true) && (r.Method == "GET" || r.Method == "HEAD") && callcount("httpError") == old(callcount("httpError"))
+//@   assert[C17] s.handleCall#1: r.Method != "OPTIONS" && r.Method != "GET" && r.Method != "HEAD" && callcount("httpError") == old(callcount("httpError"))
+//@   ensures[C17] old(r.Method) == "OPTIONS" ==> callcount("temporaryConn") == old(callcount("temporaryConn")) && callcount("handleCall") == old(callcount("handleCall"))
+//@   safety[C15]
+
+//@ func (*Service).handleCall
+//@   requires s != nil && w != nil && r != nil && s.enc != nil
+//@   assumes s.conns != nil
+//@   assert[C14] s.temporaryConn#1: codec.predValidRID(rid, true) && codec.predValidPart(action)
+//@   safety[C15]
 
 // --- fail-stop (C20) ---
 
